@@ -464,23 +464,22 @@ Proof. induction l as [|[k v] l IH]; simpl; congruence. Qed.
 (* M: wrapper_render's split *)
 (* ================================================================================================ *)
 Section Split.
-  Variable c : cfg.
   Variable special : str -> bool.
   Notation sp := (fun kv : str * N => special (fst kv)).
   Notation nsp := (fun kv : str * N => negb (special (fst kv))).
 
   Lemma wsplit_pos_prefix vs l inv :
-    wsplit c special (map pe vs ++ l) false inv =
-    match wsplit c special l false inv with Ok (reg, i) => Ok (map pe vs ++ reg, i) | Err e => Err e end.
+    wsplit special (map pe vs ++ l) false inv =
+    match wsplit special l false inv with Ok (reg, i) => Ok (map pe vs ++ reg, i) | Err e => Err e end.
   Proof.
     induction vs as [|v vs IH]; simpl.
-    - destruct (wsplit c special l false inv) as [[reg i]|e]; reflexivity.
-    - rewrite IH. destruct (wsplit c special l false inv) as [[reg i]|e]; reflexivity.
+    - destruct (wsplit special l false inv) as [[reg i]|e]; reflexivity.
+    - rewrite IH. destruct (wsplit special l false inv) as [[reg i]|e]; reflexivity.
   Qed.
 
   Lemma wsplit_kws : forall kws seen inv,
     has_dup_keys (inv ++ filter sp kws) = false ->
-    wsplit c special (map kwe kws) seen inv = Ok (map kwe (filter nsp kws), inv ++ filter sp kws).
+    wsplit special (map kwe kws) seen inv = Ok (map kwe (filter nsp kws), inv ++ filter sp kws).
   Proof.
     induction kws as [|[k v] kws IH]; intros seen inv H; simpl.
     - rewrite app_nil_r. reflexivity.
@@ -489,18 +488,18 @@ Section Split.
         assert (kmem k inv = false) as Hk.
         { destruct (kmem k inv) eqn:E; [|reflexivity]. specialize (H3 k E). unfold kmem in H3. simpl in H3.
           rewrite str_eqb_refl in H3. discriminate. }
-        rewrite Hk, andb_false_r, (dset_fresh _ _ _ Hk), IH; rewrite <- app_assoc; simpl; auto.
+        rewrite Hk, (dset_fresh _ _ _ Hk), IH; rewrite <- app_assoc; simpl; auto.
       + rewrite IH by exact H. reflexivity.
   Qed.
 
-  Lemma wsplit_kws_dup : fix_dup_special c = true -> forall kws seen inv,
+  Lemma wsplit_kws_dup : forall kws seen inv,
     has_dup_keys inv = false -> has_dup_keys (inv ++ filter sp kws) = true ->
-    wsplit c special (map kwe kws) seen inv = Err TypeError.
+    wsplit special (map kwe kws) seen inv = Err TypeError.
   Proof.
-    intros Hfix. induction kws as [|[k v] kws IH]; intros seen inv H0 H; simpl in *.
+    induction kws as [|[k v] kws IH]; intros seen inv H0 H; simpl in *.
     - rewrite app_nil_r in H. congruence.
     - destruct (special k) eqn:Sk; simpl in *.
-      + rewrite Hfix. simpl. destruct (kmem k inv) eqn:Hk; [reflexivity|].
+      + destruct (kmem k inv) eqn:Hk; [reflexivity|].
         rewrite (dset_fresh _ _ _ Hk). apply IH.
         * apply has_dup_app_intro; auto. intros x Hx. unfold kmem. simpl.
           destruct (str_eqb x k) eqn:E; [|reflexivity]. apply str_eqb_true in E. subst. congruence.
@@ -510,7 +509,7 @@ Section Split.
 
   (* a positional argument after a keyword one survives the split (or the split itself refuses) *)
   Lemma wsplit_pak : forall es seen inv,
-    match wsplit c special es seen inv with
+    match wsplit special es seen inv with
     | Err e => arg_error e = true
     | Ok (reg, _) => forall sr, pos_after_kw es (seen || sr) = true -> pos_after_kw reg sr = true
     end.
@@ -518,14 +517,14 @@ Section Split.
     induction es as [|[[k|] v] es IH]; intros seen inv; simpl.
     - intros sr H. discriminate.
     - destruct (special k).
-      + destruct (fix_dup_special c && kmem k inv); [reflexivity|].
+      + destruct (kmem k inv); [reflexivity|].
         specialize (IH true (dset k v inv)).
-        destruct (wsplit c special es true (dset k v inv)) as [[reg i]|e]; [|exact IH].
+        destruct (wsplit special es true (dset k v inv)) as [[reg i]|e]; [|exact IH].
         intros sr H. apply (IH sr). exact H.
-      + specialize (IH seen inv). destruct (wsplit c special es seen inv) as [[reg i]|e]; [|exact IH].
+      + specialize (IH seen inv). destruct (wsplit special es seen inv) as [[reg i]|e]; [|exact IH].
         intros sr H. simpl. apply (IH true). rewrite orb_true_r. exact H.
     - destruct seen; [reflexivity|]. specialize (IH false inv).
-      destruct (wsplit c special es false inv) as [[reg i]|e]; [|exact IH].
+      destruct (wsplit special es false inv) as [[reg i]|e]; [|exact IH].
       intros sr H. simpl in *. destruct sr; [reflexivity|]. simpl in *. apply (IH false). exact H.
   Qed.
 End Split.
@@ -552,22 +551,22 @@ Record view_ok (F : sig) (w : vview) (acts : nat -> nat -> list (str * action)) 
     (exists p, In p (s_ko F) /\ pname p = nm /\ pdef p = Some d)
 }.
 
-Definition impl_generic (c : cfg) (special : str -> bool) (w : vview) (acts : nat -> nat -> list (str * action))
+Definition impl_generic (special : str -> bool) (w : vview) (acts : nat -> nat -> list (str * action))
            (sv cv : N) (F : sig) (es : list (option str * N)) : res binding :=
-  match wsplit c special es false [] with
+  match wsplit special es false [] with
   | Err e => Err e
   | Ok (reg, inv) =>
-      match validate c w acts reg inv with
+      match validate w acts reg inv with
       | Err e => Err e
       | Ok (args, kwargs) => py_call F (sv :: cv :: args) kwargs
       end
   end.
 
-Lemma vloop_app c w : forall a s b,
-  vloop c w s (a ++ b) = match vloop c w s a with Ok s' => vloop c w s' b | Err e => Err e end.
+Lemma vloop_app w : forall a s b,
+  vloop w s (a ++ b) = match vloop w s a with Ok s' => vloop w s' b | Err e => Err e end.
 Proof.
   induction a as [|e a IH]; intros s b; simpl; [reflexivity|].
-  destruct (vstep c w s e); [apply IH | reflexivity].
+  destruct (vstep w s e); [apply IH | reflexivity].
 Qed.
 
 Lemma dupdate_fresh : forall e d, has_dup_keys (d ++ e) = false -> dupdate d e = d ++ e.
@@ -582,7 +581,6 @@ Proof.
 Qed.
 
 Section Generic.
-  Variable c : cfg.
   Variable special : str -> bool.
   Variable F : sig.
   Variable w : vview.
@@ -645,7 +643,7 @@ Section Generic.
   Lemma names_nth i : i < w_pc w -> nth_error (w_names w) i = nth_error (NP F) i.
   Proof. intro H. rewrite <- (vo_names _ _ _ VO). symmetry. apply nth_error_firstn_lt. exact H. Qed.
 
-  Lemma vstep_err s e x : vstep c w s e = Err x -> x = TypeError.
+  Lemma vstep_err s e x : vstep w s e = Err x -> x = TypeError.
   Proof.
     destruct e as [[k|] v]; simpl.
     - destruct (smem k (v_used s) && _); [intro H; inversion H; reflexivity|].
@@ -659,13 +657,13 @@ Section Generic.
       + apply nth_error_None in En. rewrite (vo_pc _ _ _ VO) in E. lia.
   Qed.
 
-  Lemma vloop_err : forall l s x, vloop c w s l = Err x -> x = TypeError.
+  Lemma vloop_err : forall l s x, vloop w s l = Err x -> x = TypeError.
   Proof.
     induction l as [|e l IH]; intros s x; simpl; [discriminate|].
-    destruct (vstep c w s e) as [s'|y] eqn:E; [apply IH|]. intro H. inversion H; subst. eapply vstep_err; eauto.
+    destruct (vstep w s e) as [s'|y] eqn:E; [apply IH|]. intro H. inversion H; subst. eapply vstep_err; eauto.
   Qed.
 
-  Lemma vloop_pak : forall l s, pos_after_kw l (v_seen s) = true -> exists x, vloop c w s l = Err x.
+  Lemma vloop_pak : forall l s, pos_after_kw l (v_seen s) = true -> exists x, vloop w s l = Err x.
   Proof.
     induction l as [|[[k|] v] l IH]; intros s H; simpl in *; [discriminate | |].
     - destruct (smem k (v_used s) && _); [eauto|]. destruct (negb (w_valid w k)); [eauto|]. apply IH. exact H.
@@ -678,7 +676,7 @@ Section Generic.
   Lemma pos_phase : forall vs s,
     v_seen s = false ->
     (forall x, In x (v_used s) <-> In x (firstn (v_idx s) (NP F))) ->
-    match vloop c w s (map pe vs) with
+    match vloop w s (map pe vs) with
     | Err e => e = TypeError /\ w_va w = false /\ w_pc w < v_idx s + length vs
     | Ok s' => v_seen s' = false /\ v_args s' = v_args s ++ vs /\ v_kwargs s' = v_kwargs s /\
                v_idx s' = v_idx s + length vs /\
@@ -703,7 +701,7 @@ Section Generic.
           specialize (IH s1 eq_refl). simpl in IH.
           assert (forall x, In x (nm :: v_used s) <-> In x (firstn (S (v_idx s)) (NP F))) as H1.
           { intro x. rewrite (firstn_snoc _ _ _ En), in_app_iff. simpl. rewrite Hused. tauto. }
-          specialize (IH H1). destruct (vloop c w s1 (map pe vs)) as [s'|e].
+          specialize (IH H1). destruct (vloop w s1 (map pe vs)) as [s'|e].
           -- destruct IH as [A [B [C [D E]]]]. repeat split; auto; try apply E.
              ++ rewrite B, <- app_assoc. reflexivity.
              ++ lia.
@@ -713,7 +711,7 @@ Section Generic.
           specialize (IH s1 eq_refl). simpl in IH.
           assert (forall x, In x (v_used s) <-> In x (firstn (S (v_idx s)) (NP F))) as H1.
           { intro x. rewrite Hused. rewrite !firstn_all'; try tauto; rewrite <- (vo_pc _ _ _ VO); lia. }
-          specialize (IH H1). destruct (vloop c w s1 (map pe vs)) as [s'|e].
+          specialize (IH H1). destruct (vloop w s1 (map pe vs)) as [s'|e].
           -- destruct IH as [A [B [C [D E]]]]. repeat split; auto; try apply E.
              ++ rewrite B, <- app_assoc. reflexivity.
              ++ lia.
@@ -721,7 +719,7 @@ Section Generic.
   Qed.
 
   (* ---------------- keyword arguments ---------------- *)
-  Definition exempt0 (k : str) : bool := fix_posonly_kw c && w_vk w && smem k (w_ponames w).
+  Definition exempt0 (k : str) : bool := w_vk w && smem k (w_ponames w).
   Definition bad_key (U0 : list str) (k : str) : Prop :=
     (In k U0 /\ exempt0 k = false) \/ w_valid w k = false.
 
@@ -735,7 +733,7 @@ Section Generic.
   Lemma kw_phase : forall rk s U0,
     (forall x, In x (v_used s) <-> In x U0 \/ In x (map fst (v_kwargs s))) ->
     has_dup_keys (v_kwargs s) = false ->
-    match vloop c w s (map kwe rk) with
+    match vloop w s (map kwe rk) with
     | Err e => e = TypeError /\
                (has_dup_keys (v_kwargs s ++ rk) = true \/ exists k, In k (map fst rk) /\ bad_key U0 k)
     | Ok s' => has_dup_keys (v_kwargs s ++ rk) = false /\ v_kwargs s' = v_kwargs s ++ rk /\
@@ -767,7 +765,7 @@ Section Generic.
           { apply has_dup_app_intro; auto. intros x Hx. unfold kmem. simpl.
             destruct (str_eqb x k) eqn:E; [|reflexivity]. apply str_eqb_true in E. subst. congruence. }
           specialize (IH H1 H2). rewrite <- app_assoc in IH. simpl in IH.
-          destruct (vloop c w s1 (map kwe rk)) as [s'|e].
+          destruct (vloop w s1 (map kwe rk)) as [s'|e].
           -- exact IH.
           -- destruct IH as [A [B|[k' [B1 B2]]]]; split; auto. right. exists k'. split; [right; exact B1 | exact B2].
   Qed.
@@ -821,10 +819,9 @@ Section Generic.
   Proof. rewrite nth_error_skipn'. auto. Qed.
 
   Lemma bad_key_refuses vs kws k :
-    guard c special F (map pe vs ++ map kwe kws) = true ->
     kmem k kws = true -> bad_key (firstn (length vs) (NP F)) k -> py_refuses F (sv :: cv :: vs) kws.
   Proof.
-    intros G Hk [[Hin Hex]|Hval].
+    intros Hk [[Hin Hex]|Hval].
     - apply In_firstn_nth in Hin as [j [Hj Hnth]]. apply NP_nth in Hnth as [p [Hp Hname]].
       destruct (le_lt_dec (length (s_po F)) (2 + j)) as [Hle|Hlt].
       + apply (refuse_pos F _ kws (2 + j) p Hp). left. simpl. rewrite Hname. repeat split; auto; lia.
@@ -838,13 +835,8 @@ Section Generic.
         assert (smem k (skipn 2 (map pname (s_po F))) = true) as Hs.
         { apply smem_In. eapply nth_error_In; eauto. }
         rewrite Hs, andb_true_r in Hex. destruct (s_vk F) as [vkn|] eqn:Evk.
-        * exfalso. rewrite (vo_vk _ _ _ VO), Evk in Hex. simpl in Hex. rewrite andb_true_r in Hex.
-          unfold guard in G. rewrite Hex in G. cbn [orb] in G. apply andb_true_iff in G as [G _].
-          unfold clash_posonly in G. rewrite es_pos, es_kw, Evk in G. cbn [is_some andb] in G.
-          assert (existsb (fun kv => smem (fst kv) (firstn (length vs) (skipn 2 (map pname (s_po F))))) kws = true) as Hx.
-          { apply existsb_exists. unfold kmem in Hk. destruct (klookup k kws) as [v|] eqn:El; [|discriminate].
-            exists (k, v). split; [apply klookup_In; exact El|]. simpl. apply smem_In. apply In_firstn_nth. eauto. }
-          rewrite Hx in G. discriminate.
+        * (* ... and **kwargs exists: the loop exempts it (81cf028), so it cannot be a bad key *)
+          exfalso. rewrite (vo_vk _ _ _ VO), Evk in Hex. simpl in Hex. discriminate.
         * apply (refuse_unexpected F _ kws k Hk); [|exact Evk]. rewrite map_app, in_app_iff. intros [H|H].
           -- exact (po_pk_disj k Hkpo H).
           -- apply (P_ko_disj k); [|exact H]. unfold P, pos_params. rewrite map_app. apply in_or_app. left. exact Hkpo.
@@ -908,36 +900,33 @@ Section Generic.
 
   (* ---------------- the three cases ---------------- *)
   Lemma impl_pak es : pos_after_kw es false = true ->
-    exists e, impl_generic c special w acts sv cv F es = Err e /\ arg_error e = true.
+    exists e, impl_generic special w acts sv cv F es = Err e /\ arg_error e = true.
   Proof.
-    intro H. unfold impl_generic. pose proof (wsplit_pak c special es false []) as S.
-    destruct (wsplit c special es false []) as [[reg inv]|e]; [|eauto].
+    intro H. unfold impl_generic. pose proof (wsplit_pak special es false []) as S.
+    destruct (wsplit special es false []) as [[reg inv]|e]; [|eauto].
     specialize (S false H). unfold validate.
     destruct (vloop_pak reg vinit S) as [x Hx]. rewrite Hx. exists x. split; [reflexivity|].
     rewrite (vloop_err _ _ _ Hx). reflexivity.
   Qed.
 
   Lemma impl_decomposed es vs kws :
-    es = map pe vs ++ map kwe kws -> guard c special F es = true ->
-    res_equiv (impl_generic c special w acts sv cv F es)
+    es = map pe vs ++ map kwe kws ->
+    res_equiv (impl_generic special w acts sv cv F es)
               (if has_dup_keys kws then Err TypeError else py_call F (sv :: cv :: vs) kws).
   Proof.
-    intros -> G. unfold impl_generic. rewrite wsplit_pos_prefix.
+    intros ->. unfold impl_generic. rewrite wsplit_pos_prefix.
     destruct (has_dup_keys (filter sp kws)) eqn:Dsk.
     - (* a special key twice *)
       assert (has_dup_keys kws = true) as ->.
       { destruct (has_dup_keys kws) eqn:E; [reflexivity|]. rewrite (has_dup_filter special kws E) in Dsk. discriminate. }
-      assert (fix_dup_special c = true) as Hfix.
-      { unfold guard in G. apply andb_true_iff in G as [_ G]. unfold clash_special in G. rewrite es_kw, Dsk in G.
-        simpl in G. rewrite orb_false_r in G. exact G. }
-      rewrite (wsplit_kws_dup c special Hfix kws false [] eq_refl Dsk). simpl. auto.
-    - rewrite (wsplit_kws c special kws false [] Dsk). simpl app.
+      rewrite (wsplit_kws_dup special kws false [] eq_refl Dsk). simpl. auto.
+    - rewrite (wsplit_kws special kws false [] Dsk). simpl app.
       set (rk := filter nsp kws). set (sk := filter sp kws).
       unfold validate. rewrite vloop_app.
       pose proof (pos_phase vs vinit eq_refl) as P1. simpl in P1.
       assert (forall x : str, False <-> In x (firstn 0 (NP F))) as H0 by (intro x; simpl; tauto).
       specialize (P1 H0). clear H0.
-      destruct (vloop c w vinit (map pe vs)) as [s1|e1].
+      destruct (vloop w vinit (map pe vs)) as [s1|e1].
       2:{ (* too many positional arguments *)
         destruct P1 as [-> [Hva Hpc]].
         assert (py_refuses F (sv :: cv :: vs) kws) as R.
@@ -954,16 +943,16 @@ Section Generic.
       + (* a regular key twice *)
         assert (has_dup_keys rk = true) as Drk.
         { destruct (has_dup_keys rk) eqn:E; [reflexivity|]. rewrite (has_dup_partition special kws Dsk E) in Dk. discriminate. }
-        destruct (vloop c w s1 (map kwe rk)) as [s2|e2].
+        destruct (vloop w s1 (map kwe rk)) as [s2|e2].
         * destruct P2 as [A _]. congruence.
         * destruct P2 as [-> _]. simpl. auto.
       + assert (has_dup_keys rk = false) as Drk by (apply (has_dup_filter (fun x => negb (special x))); exact Dk).
-        destruct (vloop c w s1 (map kwe rk)) as [s2|e2].
+        destruct (vloop w s1 (map kwe rk)) as [s2|e2].
         2:{ destruct P2 as [-> [A|[k [Hk Hbad]]]]; [congruence|].
             assert (kmem k kws = true) as Hkk.
             { apply kmem_In in Hk. unfold rk in Hk. rewrite (kmem_filter (fun x => negb (special x))) in Hk.
               apply andb_true_iff in Hk. tauto. }
-            rewrite (bad_key_refuses vs kws k G Hkk Hbad). simpl. auto. }
+            rewrite (bad_key_refuses vs kws k Hkk Hbad). simpl. auto. }
         destruct P2 as [_ [Hkw2 [Hargs2 [Hidx2 Hused2]]]].
         destruct (nonempty sk && negb (w_vk w)) eqn:Eex.
         * (* special keys without **kwargs *)
@@ -1004,34 +993,29 @@ Section Generic.
 
   (* the tag and the equivalent Python call agree, for every argument sequence *)
   Theorem generic_equiv es :
-    guard c special F es = true ->
-    res_equiv (impl_generic c special w acts sv cv F es) (py_bind_entries sv cv F es).
+    res_equiv (impl_generic special w acts sv cv F es) (py_bind_entries sv cv F es).
   Proof.
-    intro G. unfold py_bind_entries. destruct (pos_after_kw es false) eqn:PAK.
+    unfold py_bind_entries. destruct (pos_after_kw es false) eqn:PAK.
     - destruct (impl_pak es PAK) as [e [-> He]]. simpl. auto.
-    - apply impl_decomposed; [apply no_pak; exact PAK | exact G].
+    - apply impl_decomposed. apply no_pak. exact PAK.
   Qed.
 
   (* SyntaxError is raised only for a positional argument after a keyword one; nothing but
      TypeError / SyntaxError is ever raised *)
   Lemma generic_error_class es e :
-    guard c special F es = true ->
-    impl_generic c special w acts sv cv F es = Err e ->
+    impl_generic special w acts sv cv F es = Err e ->
     arg_error e = true /\ (e = SyntaxError -> pos_after_kw es false = true).
   Proof.
-    intros G H. pose proof (generic_equiv es G) as E. rewrite H in E.
+    intros H. pose proof (generic_equiv es) as E. rewrite H in E.
     destruct (py_bind_entries sv cv F es) eqn:Epy; simpl in E; [contradiction|]. split; [tauto|].
     intros ->. unfold py_bind_entries in Epy. destruct (pos_after_kw es false) eqn:PAK; [reflexivity|].
     exfalso. (* in the well-ordered case the split cannot raise SyntaxError and the rest raises TypeError *)
     unfold impl_generic in H. rewrite (no_pak es PAK), wsplit_pos_prefix in H.
     set (kws := entries_kw es) in *.
     destruct (has_dup_keys (filter sp kws)) eqn:Dsk.
-    - assert (fix_dup_special c = true) as Hfix.
-      { unfold guard in G. apply andb_true_iff in G as [_ G]. unfold clash_special in G. fold kws in G. rewrite Dsk in G.
-        simpl in G. rewrite orb_false_r in G. exact G. }
-      rewrite (wsplit_kws_dup c special Hfix kws false [] eq_refl Dsk) in H. discriminate.
-    - rewrite (wsplit_kws c special kws false [] Dsk) in H. simpl app in H. unfold validate in H.
-      destruct (vloop c w vinit _) as [s|x] eqn:El.
+    - rewrite (wsplit_kws_dup special kws false [] eq_refl Dsk) in H. discriminate.
+    - rewrite (wsplit_kws special kws false [] Dsk) in H. simpl app in H. unfold validate in H.
+      destruct (vloop w vinit _) as [s|x] eqn:El.
       + destruct (nonempty _ && negb (w_vk w)); [discriminate|].
         pose proof (vpost_spec (acts (length (v_args s)) (v_idx s)) (v_used s)
                                (dupdate (v_kwargs s) (filter sp kws))) as P3.
@@ -1132,7 +1116,6 @@ Proof.
 Qed.
 
 Section Views.
-  Variable c : cfg.
   Variable special : str -> bool.
   Variable F : sig.
   Hypothesis WF : wfb special F = true.
@@ -1323,7 +1306,6 @@ Proof.
 Qed.
 
 Section CodeView.
-  Variable c : cfg.
   Variable special : str -> bool.
   Variable F : sig.
   Hypothesis WF : wfb special F = true.
@@ -1440,47 +1422,69 @@ End CodeView.
 (* ================================================================================================ *)
 (* the statements used by Props/C11.v *)
 (* ================================================================================================ *)
-Lemma impl_bind_generic c special use_code sv cv F es :
-  impl_bind_entries c special use_code sv cv F es =
+Lemma impl_bind_generic special use_code sv cv F es :
+  impl_bind_entries special use_code sv cv F es =
   if use_code
-  then impl_generic c special (code_view (code_of F))
+  then impl_generic special (code_view (code_of F))
                     (fun nargs _ => code_actions_from (code_of F) nargs 0 (code_names (code_of F))) sv cv F es
-  else impl_generic c special (sig_view (sparams_of F)) (sig_actions (sparams_of F)) sv cv F es.
+  else impl_generic special (sig_view (sparams_of F)) (sig_actions (sparams_of F)) sv cv F es.
 Proof. destruct use_code; reflexivity. Qed.
 
-Lemma bind_equiv_lemma : forall c special use_code sv cv F call,
-  wfb special F = true -> guard c special F (resolve call) = true ->
-  res_equiv (impl_bind c special use_code sv cv F call) (py_bind sv cv F call).
+Lemma bind_equiv_lemma : forall special use_code sv cv F call,
+  wfb special F = true ->
+  res_equiv (impl_bind special use_code sv cv F call) (py_bind sv cv F call).
 Proof.
-  intros c special use_code sv cv F call WF G. unfold impl_bind, py_bind. rewrite impl_bind_generic.
+  intros special use_code sv cv F call WF. unfold impl_bind, py_bind. rewrite impl_bind_generic.
   destruct use_code.
-  - apply (generic_equiv c special F _ _ (code_view_ok special F WF) WF sv cv _ G).
-  - apply (generic_equiv c special F _ _ (sig_view_ok special F WF) WF sv cv _ G).
+  - apply (generic_equiv special F _ _ (code_view_ok special F WF) WF sv cv).
+  - apply (generic_equiv special F _ _ (sig_view_ok special F WF) WF sv cv).
 Qed.
 
-Lemma guard_fixed special F es : guard fixed_cfg special F es = true.
-Proof. reflexivity. Qed.
-
-Lemma fast_fallback_lemma : forall c special sv cv F call,
-  wfb special F = true -> guard c special F (resolve call) = true ->
-  res_equiv (impl_bind c special true sv cv F call) (impl_bind c special false sv cv F call).
+Lemma fast_fallback_lemma : forall special sv cv F call,
+  wfb special F = true ->
+  res_equiv (impl_bind special true sv cv F call) (impl_bind special false sv cv F call).
 Proof.
-  intros c special sv cv F call WF G. eapply res_equiv_trans.
+  intros special sv cv F call WF. eapply res_equiv_trans.
   - apply bind_equiv_lemma; eauto.
   - apply res_equiv_sym. apply bind_equiv_lemma; eauto.
 Qed.
 
-Lemma error_class_lemma : forall c special use_code sv cv F call e,
-  wfb special F = true -> guard c special F (resolve call) = true ->
-  impl_bind c special use_code sv cv F call = Err e ->
+Lemma error_class_lemma : forall special use_code sv cv F call e,
+  wfb special F = true ->
+  impl_bind special use_code sv cv F call = Err e ->
   (e = TypeError \/ e = SyntaxError) /\ (e = SyntaxError -> pos_after_kw (resolve call) false = true).
 Proof.
-  intros c special use_code sv cv F call e WF G H. unfold impl_bind in H. rewrite impl_bind_generic in H.
+  intros special use_code sv cv F call e WF H. unfold impl_bind in H. rewrite impl_bind_generic in H.
   assert (arg_error e = true /\ (e = SyntaxError -> pos_after_kw (resolve call) false = true)) as [A B].
   { destruct use_code.
-    - apply (generic_error_class c special F _ _ (code_view_ok special F WF) WF sv cv _ e G H).
-    - apply (generic_error_class c special F _ _ (sig_view_ok special F WF) WF sv cv _ e G H). }
+    - apply (generic_error_class special F _ _ (code_view_ok special F WF) WF sv cv _ e H).
+    - apply (generic_error_class special F _ _ (sig_view_ok special F WF) WF sv cv _ e H). }
   split; [|exact B]. destruct e; simpl in A; auto; discriminate.
+Qed.
+
+(* the tag accepts exactly the calls Python accepts *)
+Lemma accepts_iff_lemma : forall special use_code sv cv F call,
+  wfb special F = true ->
+  ((exists b, impl_bind special use_code sv cv F call = Ok b) <-> (exists b, py_bind sv cv F call = Ok b)).
+Proof.
+  intros special use_code sv cv F call WF. pose proof (bind_equiv_lemma special use_code sv cv F call WF) as E.
+  destruct (impl_bind special use_code sv cv F call) as [b1|e1], (py_bind sv cv F call) as [b2|e2];
+    simpl in E; try contradiction.
+  - split; eauto.
+  - split; intros [b H]; discriminate.
+Qed.
+
+(* whenever wrapper_render gets as far as  orig_render(self, context, *args, **kwargs),  that call binds what the
+   equivalent Python call binds - or Python's own binding refuses it with TypeError and so does the equivalent call *)
+Lemma never_other_bindings_lemma : forall special use_code sv cv F call reg inv args kwargs,
+  wfb special F = true ->
+  wsplit special (resolve call) false [] = Ok (reg, inv) ->
+  validate_params special use_code F reg inv = Ok (args, kwargs) ->
+  res_equiv (py_call F (sv :: cv :: args) kwargs) (py_bind sv cv F call).
+Proof.
+  intros special use_code sv cv F call reg inv args kwargs WF Hs Hv.
+  pose proof (bind_equiv_lemma special use_code sv cv F call WF) as E.
+  unfold impl_bind, impl_bind_entries in E. rewrite Hs, Hv in E. exact E.
 Qed.
 
 Lemma nodup_lookup (l : list (str * N)) k v : has_dup_keys l = false -> In (k, v) l -> klookup k l = Some v.
@@ -1500,14 +1504,14 @@ Proof.
 Qed.
 
 (* a key that is not an identifier reaches render() only inside **kwargs *)
-Lemma special_only_varkw_lemma : forall c special use_code sv cv F call k v b,
-  wfb special F = true -> guard c special F (resolve call) = true ->
+Lemma special_only_varkw_lemma : forall special use_code sv cv F call k v b,
+  wfb special F = true ->
   In (Some k, v) (resolve call) -> special k = true ->
-  impl_bind c special use_code sv cv F call = Ok b ->
+  impl_bind special use_code sv cv F call = Ok b ->
   s_vk F <> None /\ ~ In k (all_names F) /\ exists d, b_kw b = Some d /\ klookup k d = Some v.
 Proof.
-  intros c special use_code sv cv F call k v b WF G Hin Hsp H.
-  pose proof (bind_equiv_lemma c special use_code sv cv F call WF G) as E. rewrite H in E.
+  intros special use_code sv cv F call k v b WF Hin Hsp H.
+  pose proof (bind_equiv_lemma special use_code sv cv F call WF) as E. rewrite H in E.
   unfold py_bind, py_bind_entries in E. set (es := resolve call) in *.
   destruct (pos_after_kw es false); [contradiction|].
   destruct (has_dup_keys (entries_kw es)) eqn:Dk; [contradiction|].
